@@ -221,11 +221,39 @@ class Normaliser:
         if isinstance(e, ast.Attribute):
             return self.atom_of(e.value) + '.' + e.attr
         if isinstance(e, ast.Subscript):
+            if isinstance(e.value, ast.Name) and e.value.id == 'r_' and isinstance(e.slice, ast.Tuple):
+                # r_[a, [b, c]] concatenates: a nested display contributes its elements
+                elts = []
+                for x in e.slice.elts:
+                    elts.extend(x.elts if isinstance(x, (ast.List, ast.Tuple)) else [x])
+                return 'r_[%s]' % ', '.join(str(self.poly(x)) for x in elts)
             return '%s[%s]' % (self.atom_of(e.value), self.slice_str(e.slice))
+        if isinstance(e, ast.Call) and isinstance(e.func, ast.Name) and e.func.id == 'array' and len(e.args) == 1 and not e.keywords \
+                and isinstance(e.args[0], (ast.List, ast.Tuple)) and len(e.args[0].elts) >= 2 \
+                and not any(isinstance(x, (ast.List, ast.Tuple, ast.Starred)) for x in e.args[0].elts):
+            # a 1-D array from a flat display of scalars is the same vector as r_[...]
+            return 'r_[%s]' % ', '.join(str(self.poly(x)) for x in e.args[0].elts)
+        if isinstance(e, ast.Call) and isinstance(e.func, ast.Name) and e.func.id in ('eye', 'identity') and not any(k.arg is None for k in e.keywords) \
+                and 1 <= len(e.args) <= 2 and (len(e.args) == 1 or (e.func.id == 'eye' and ast.dump(e.args[0]) == ast.dump(e.args[1]))):
+            # eye(n) == eye(n, n) == identity(n)
+            kws = ['%s=%s' % (k.arg, str(self.poly(k.value))) for k in sorted(e.keywords, key=lambda k: k.arg)]
+            return 'eye(%s)' % ', '.join([str(self.poly(e.args[0]))] + kws)
         if isinstance(e, ast.Call):
             fn = e.func.id if isinstance(e.func, ast.Name) else self.atom_str(e.func)
-            args = [str(self.poly(a)) for a in e.args]
-            kws = ['%s=%s' % (k.arg, str(self.poly(k.value))) for k in sorted(e.keywords, key=lambda k: k.arg or '')]
+            pos, kw = list(e.args), [k for k in e.keywords]
+            if isinstance(e.func, ast.Name) and kw and all(k.arg for k in kw) and not any(isinstance(a, ast.Starred) for a in pos):
+                # f(a, p=b) and f(a, b) are the same call when p is the callee's next positional parameter
+                from .pattern import _plain_signature
+                sig = _plain_signature(fn)
+                if sig is None and fn == 'cls':
+                    sig = self.rename.get('__ctor__')
+                if sig is not None:
+                    byname = {k.arg: k for k in kw}
+                    while len(pos) < len(sig) and sig[len(pos)] in byname:
+                        pos.append(byname.pop(sig[len(pos)]).value)
+                    kw = list(byname.values())
+            args = [str(self.poly(a)) for a in pos]
+            kws = ['%s=%s' % (k.arg, str(self.poly(k.value))) for k in sorted(kw, key=lambda k: k.arg or '')]
             return '%s(%s)' % (fn, ', '.join(args + kws))
         if isinstance(e, (ast.Tuple, ast.List)):
             return '[' + ', '.join(str(self.poly(x)) for x in e.elts) + ']'
@@ -254,6 +282,18 @@ class Normaliser:
                 r += ':' + b(s.step)
             return r
         return str(self.poly(s))
+
+    MATRIX_MARKS = ('eye(', 'skew(', 'skewa(', ' @ ', '.T', 'rotx(', 'roty(', 'rotz(', 'rot2(', 'r2t(', 't2r(', 'q2r(', 'identity(')
+
+    def _matrix_like(self, e):
+        """syntactically 2-D: the normal form of e mentions a matrix constructor / product / transpose in EVERY term"""
+        p = self.poly(e)
+        if not p.t:
+            return False
+        for k in p.t:
+            if not any(any(m in a for m in self.MATRIX_MARKS) for a, _ in k):
+                return False
+        return True
 
     # ---- polynomials
     def poly(self, e):
@@ -311,6 +351,10 @@ class Normaliser:
         if isinstance(e, ast.Attribute) and e.attr == 'T':
             s, w = self.word(e)
             return _capply(Poly.atom(' @ '.join(w)), s)
+        if isinstance(e, ast.Call) and isinstance(e.func, ast.Attribute) and e.func.attr == 'dot' and len(e.args) == 1 and not e.keywords \
+                and not (isinstance(e.func.value, ast.Name) and e.func.value.id in ('np', 'numpy')) and self._matrix_like(e.func.value):
+            # A.dot(b) with a 2-D receiver is the matrix product
+            return self.poly(ast.BinOp(left=e.func.value, op=ast.MatMult(), right=e.args[0]))
         if isinstance(e, ast.Call) and isinstance(e.func, ast.Name):
             fn = e.func.id
             if fn == 'cross' and len(e.args) == 2:
@@ -326,6 +370,9 @@ class Normaliser:
                         sign = -sign
                     return Poly.atom('cross(%s, %s)' % (x, y)).scale(sign)
                 return Poly.atom('cross(%s, %s)' % (str(a), str(b)))
+            if fn == 'dot' and len(e.args) == 2 and not e.keywords and (self._matrix_like(e.args[0]) or self._matrix_like(e.args[1])):
+                # np.dot with a 2-D operand is the matrix product
+                return self.poly(ast.BinOp(left=e.args[0], op=ast.MatMult(), right=e.args[1]))
             if fn in ('dot', 'inner') and len(e.args) == 2:
                 a, b = self.poly(e.args[0]), self.poly(e.args[1])
                 sa, sb = a.single_atom(), b.single_atom()
